@@ -357,7 +357,10 @@ func c05Check(out *Out, cls string, originals []protoreflect.FileDescriptor) (re
 		// leading comments: every comment of the original must be on the same element
 		ca, cb := leadingComments(a), leadingComments(b)
 		for p, c := range ca {
-			if normComment(cb[p]) != normComment(c) {
+			// compiled j5s: the comment text is generated and has to come back exactly (leadingComments trims the ends);
+			// hand-written protos: up to white space at the ends of lines
+			strict := !strings.HasPrefix(cls, "proto-tree")
+			if (strict && cb[p] != c) || normComment(cb[p]) != normComment(c) {
 				out.V("C05|comment-differs|"+cls, "leading comment of %s at path %s: original %q, re-parsed %q", f.Path(), p, c, cb[p])
 				allOK = false
 				break
